@@ -182,6 +182,45 @@ func genC06(t *rapid.T) AxisCase {
 			steps = append(steps[:pos], append([]Step{{T: "abs", Sub: "Touchpad", Code: a.Code, Val: r}}, steps[pos:]...)...)
 		}
 	}
+	// further mappings that differ in their deadzones only, and mapping_up / mapping_down taps and pair resets between the moves
+	if rapid.IntRange(0, 3).Draw(t, "moreMappings") == 0 {
+		d.Actions = append(d.Actions, ActionDef{Code: 59, Action: "mapping_up"}, ActionDef{Code: 60, Action: "mapping_down"})
+		base := d.Mappings[0]
+		for k := rapid.IntRange(1, 2).Draw(t, "extraMappings"); k > 0; k-- {
+			m2 := MappingDef{Name: []string{"C", "B"}[k-1]}
+			for _, as := range base.AnalogSubs {
+				m2.AnalogSubs = append(m2.AnalogSubs, AnalogSub{Sub: as.Sub, Default: floatp(genDeadzone(t, "dzDefaultOther"))})
+			}
+			for _, ax := range base.Axes {
+				ax.Deadzone = nil
+				if rapid.Bool().Draw(t, "dzSpecificOther") {
+					ax.Deadzone = floatp(genDeadzone(t, "dzOtherMapping"))
+				}
+				m2.Axes = append(m2.Axes, ax)
+			}
+			d.Mappings = append(d.Mappings, m2)
+		}
+		tapKey := func(code uint16) []Step {
+			return []Step{{T: "key", Code: code, Val: 1}, {T: "key", Code: code, Val: 0}}
+		}
+		for k := rapid.IntRange(2, 8).Draw(t, "mappingOps"); k > 0; k-- {
+			var ins []Step
+			switch rapid.IntRange(0, 3).Draw(t, "mappingOp") {
+			case 0, 1:
+				ins = tapKey(59)
+			case 2:
+				ins = tapKey(60)
+			default: // both keys of the pair: back to the first mapping
+				first, second := uint16(59), uint16(60)
+				if rapid.Bool().Draw(t, "downFirst") {
+					first, second = second, first
+				}
+				ins = []Step{{T: "key", Code: first, Val: 1}, {T: "key", Code: second, Val: 1}, {T: "key", Code: second, Val: 0}, {T: "key", Code: first, Val: 0}}
+			}
+			pos := rapid.IntRange(0, len(steps)).Draw(t, "mappingOpAt")
+			steps = append(steps[:pos], append(ins, steps[pos:]...)...)
+		}
+	}
 	return AxisCase{D: d, Steps: steps, Logs: rapid.IntRange(0, 7).Draw(t, "logs") == 0}
 }
 
